@@ -375,3 +375,14 @@ def replay(case, R):
     impls = [Impl("pure"), Impl("nvx_default"), Impl("nvx_table"), Impl("nvx_unrolled")]
     mon = Monitor(R, impls, "replay")
     mon.run_case([bytes.fromhex(c) for c in case["chunks"]], "replay", align=case.get("align"))
+
+
+MANIFEST_ENTRY = {
+    "text": ("Every return of validate() of all reachable implementations (pure Python, NVX table DFA, NVX unrolled DFA; "
+             "NVX rebuilt from the tree with the repository's flags and with clang ASan+UBSan) is compared online with an "
+             "independent RFC 3629 reference and with the other implementations: exhaustively for every DFA transition and "
+             "all strings of length <=2 (<=3 thorough) under every chunking, plus generated mixtures, random chunkings, "
+             "16 buffer alignments. Held = no mismatch on the executions listed in the evidence; not a proof."),
+    "note": "trusts vf/utf8_ref.py (Unicode Table 3-7, self-checked against CPython's decoder at start-up), cffi, clang sanitizer runtime; SSE2/SSE4.1 functions are unreachable through the exported API and not driven",
+    "technique": "runtime monitoring: differential oracle (RFC 3629 reference + cross-implementation) over exhaustive/generated inputs, ASan+UBSan build of the C code",
+}
